@@ -65,7 +65,7 @@ pub fn generate(prop: &str, rng: &mut Rng, tier: Tier) -> Scenario {
     let mut s = rng.fork("sched");
     let faulty = g.below(3) != 0;
     let mix = Mix::draw(&mut g, prop);
-    let gas = match (prop, g.below(11)) {
+    let mut gas = match (prop, g.below(11)) {
         ("C29", 0..=6) => GasSched::Default,
         (_, 0..=4) => GasSched::Default,
         (_, 5 | 6) => GasSched::Unit,
@@ -152,12 +152,27 @@ pub fn generate(prop: &str, rng: &mut Rng, tier: Tier) -> Scenario {
         if g.chance(1, 4) {
             let a = coins[g.usize_below(coins.len())].0;
             outputs.push(OutSpec::Coin { asset: a, amount: g.below(400) });
+            if g.chance(1, 2) {
+                // a second coin output, mostly of the same asset
+                let b = if g.chance(3, 4) { a } else { coins[g.usize_below(coins.len())].0 };
+                outputs.push(OutSpec::Coin { asset: b, amount: g.below(400) });
+            }
         }
         g.shuffle(&mut outputs);
         let n_contract_outputs = { let mut v = input_contracts.clone(); v.dedup(); v.len() };
         let variable_outputs: Vec<u8> = outputs.iter().enumerate().filter(|(_, o)| matches!(o, OutSpec::Variable)).map(|(k, _)| (k + n_contract_outputs) as u8).collect();
         let len = g.range(2, if tier == Tier::Thorough { 90 } else { 60 }) as usize;
-        let script = if prop == "C29" && g.chance(1, 2) {
+        // C28: rare receipt floods up to the 65 535-receipt limit (cheap schedule, ample gas)
+        let flood = prop == "C28" && g.chance(1, if tier == Tier::Thorough { 250 } else { 1500 });
+        let script = if flood {
+            gas = GasSched::Unit;
+            let logs = 65_535 - g.below(8);
+            let mut pg = PGen::new(&mut g, true, &mix, n_dep);
+            pg.n_blobs = nblobs;
+            pg.variable_outputs = variable_outputs;
+            let n = pg.g.below(6) as usize;
+            pg.flood_program(logs, n)
+        } else if prop == "C29" && g.chance(1, 2) {
             random_program(&mut g, len)
         } else {
             let mut pg = PGen::new(&mut g, true, &mix, n_dep);
@@ -177,7 +192,7 @@ pub fn generate(prop: &str, rng: &mut Rng, tier: Tier) -> Scenario {
                 let n = g.below(24) as usize;
                 g.bytes(n)
             },
-            gas_limit: gas_limit(&mut g, &mut f, exhaust),
+            gas_limit: if flood { 3_000_000 } else { gas_limit(&mut g, &mut f, exhaust) },
             max_fee,
             tip: if g.chance(1, 5) { g.below(100) } else { 0 },
             coins,
